@@ -253,6 +253,8 @@ func (w *world) mutate(r *emit.Rand, req any) string {
 
 // runHead calls the real handler and renders the case.
 func (w *world) runHead(m method, req any, tag string) (term string, info map[string]any, cls string) {
+	n, o := w.context(m.Key(), req) // read from the state before the call
+	ratio := w.poolRatio(req)
 	cls, det := w.callMethod(m, req)
 	code := map[string]int{clsOk: 0, clsErr: 1, clsPanic: 2}[cls]
 	rv := reflect.ValueOf(req)
@@ -271,8 +273,7 @@ func (w *world) runHead(m method, req any, tag string) (term string, info map[st
 		}
 		info["detail"] = det
 	}
-	n, o := w.context(m.Key(), req)
-	term = fmt.Sprintf("CHead %q %s %d %s %d", m.Key(), val, n, o, code)
+	term = fmt.Sprintf("CHead %q %s %d %s %s %d", m.Key(), val, n, o, ratio, code)
 	return term, info, cls
 }
 
@@ -288,7 +289,7 @@ func (w *world) context(key string, req any) (n int, oracles string) {
 	if !ok || msg == nil {
 		return 0, oracles
 	}
-	ctx := w.h.Ctx()
+	ctx := w.stateCtx()
 	k := w.h.App.DaKeeper
 	item, found, err := k.GetPublishedData(ctx, msg.MetadataUri)
 	if err != nil {
@@ -325,4 +326,33 @@ func (w *world) context(key string, req any) (n int, oracles string) {
 		}
 	}
 	return n, fmt.Sprintf("(Some [%s; %s; %s])", emit.Bool(signer), emit.Bool(itemOK), emit.Bool(parse))
+}
+
+// poolRatio: the raw price ratio of the liquidity pool a position request addresses ("0" when the
+// request names no pool or the pool does not exist).
+func (w *world) poolRatio(req any) string {
+	var id uint64
+	switch r := req.(type) {
+	case *lptypes.MsgCreatePosition:
+		if r == nil {
+			return "0"
+		}
+		id = r.PoolId
+	case *lptypes.QueryCalculationCreatePositionRequest:
+		if r == nil {
+			return "0"
+		}
+		id = r.PoolId
+	default:
+		return "0"
+	}
+	p, found, err := w.h.App.LiquiditypoolKeeper.GetPool(w.stateCtx(), id)
+	if err != nil || !found {
+		return "0"
+	}
+	d, err := sdkmath.LegacyNewDecFromStr(p.TickParams.PriceRatio)
+	if err != nil {
+		return "0"
+	}
+	return emit.Z(d.BigInt())
 }
